@@ -13,7 +13,7 @@ rsync -a --exclude .git /repo/ "$scratch/"
 export GOFLAGS=-mod=mod GOPROXY=off GOSUMDB=off GOTOOLCHAIN=local
 ( cd "$scratch" && go1.26.8 build ./... ) || { echo "mutant: does not compile"; exit 3; }
 if [ "$suite" = "--suite" ]; then
-  ( cd "$scratch" && go1.26.8 test -vet=off -count=1 ./... 2>&1 | tail -8 ) 
+  ( cd "$scratch" && go1.26.8 test -vet=off -count=1 ./... 2>&1 | grep -E "^(ok|FAIL|--- FAIL|panic)" | head -20 ) 
 fi
 start=$(date +%s)
 VERIF_REPO="$scratch" ./check "$id" "$tier"
